@@ -70,54 +70,33 @@ i_MOVA = i_MOV
 i_MOVI20 = i_MOVI20S = i_MOV
 
 
+def _movm_(ins, fmap, regs):
+    # MOVML/MOVMU transfer the registers regs (in ascending order, R15 being
+    # replaced by PR) from/to the stack:
+    if ins.misc["incr"]:
+        # MOVMx.L @R15+,Rn : pop in ascending order
+        for r in regs:
+            fmap[r] = fmap(__mem(sp, 32))
+            fmap[sp] = fmap(sp + 4)
+    if ins.misc["decr"]:
+        # MOVMx.L Rm,@-R15 : push in descending order
+        for r in reversed(regs):
+            fmap[sp] = fmap(sp - 4)
+            fmap[__mem(sp, 32)] = fmap(r)
+
+
 @__pc
 def i_MOVML(ins, fmap):
-    src, dst = ins.operands
-    if ins.misc["incr"]:
-        assert ins.misc["incr"][0] == 0
-        assert src._is_mem
-        assert src.a.base == R15
-        assert dst._is_reg
-        for r in R[: obj.m]:
-            if r == sp:
-                r = PR
-            fmap[r] = fmap(src)
-            fmap[R15] = fmap(R15) + 4
-    if ins.misc["decr"]:
-        assert ins.misc["decr"][0] == 1
-        assert src._is_reg
-        assert dst._is_mem
-        assert dst.a.base == R15
-        for r in R[obj.m :: -1]:
-            if r == sp:
-                r = PR
-            fmap[R15] = fmap(R15) - 4
-            fmap[dst] = fmap(r)
+    # lower registers: R0 ... Rm
+    regs = [PR if k == 15 else R[k] for k in range(0, ins.m + 1)]
+    _movm_(ins, fmap, regs)
 
 
 @__pc
 def i_MOVMU(ins, fmap):
-    src, dst = ins.operands
-    if ins.misc["incr"]:
-        assert ins.misc["incr"][0] == 0
-        assert src._is_mem
-        assert src.a.base == R15
-        assert dst._is_reg
-        for r in R[obj.m :]:
-            if r == sp:
-                r = PR
-            fmap[r] = fmap(src)
-            fmap[R15] = fmap(R15) + 4
-    if ins.misc["decr"]:
-        assert ins.misc["decr"][0] == 1
-        assert src._is_reg
-        assert dst._is_mem
-        assert dst.a.base == R15
-        for r in R[obj.m :][::-1]:
-            if r == sp:
-                r = PR
-            fmap[R15] = fmap(R15) - 4
-            fmap[dst] = fmap(r)
+    # upper registers: Rm ... R14, PR
+    regs = [PR if k == 15 else R[k] for k in range(ins.m, 16)]
+    _movm_(ins, fmap, regs)
 
 
 @__pc
